@@ -106,7 +106,7 @@ PROPS['C16'] = {
                     'Display output is a function of the value (display<T>)'],
 }
 PROPS['C07'] = {
-    'units': [UnitS], 'level': 'proof', 'design_ref': 'DESIGN.md 4.7',
+    'units': [UnitS, UnitR], 'level': 'proof', 'design_ref': 'DESIGN.md 4.7',
     'scope': '(b) transmission half: a request that fails its restriction check yields an error and no network-capable call is reachable '
              'before the check has passed',
     'level_text': 'Deductive proof (Verus/Z3): every network-capable stand-in call (send, text) requires net_allowed(), and the helper is '
@@ -208,7 +208,7 @@ def l3_witness(pid, fails, repo):
     if g['status'] != 'OK':
         return out
     em = Emitted(g['out'])
-    m = re.search(r'(?:shape:|sig:|emitted::)(?:(\w+)::)?(\w+)', f.obligation)
+    m = re.search(r'(?:shape:|sig:|emitted::|wire:)(?:(\w+)::)?(\w+)', f.obligation)
     names = [x for x in (m.groups() if m else ()) if x]
     shown = []
     for it in em.items:
